@@ -9,15 +9,29 @@ TRUST = ("Trusted base: the go/ssa translation and the symbolic executor of /ver
          "preconditions stated in the contracts (bus created by New, non-nil context, callbacks other than handlers do not panic).")
 
 CLAIMS = {
- "C04": ("Once claim/dispatch contracts of PublishContext (per-iteration), its goroutine literal, the atomic-field scan (executed only ever CAS 0->1) and the immutability scan, discharged for all inputs and iteration counts; all schedules through M5 (CAS linearizable).", "4 C04"),
- "C05": ("Panic containment contracts of callHandlerWithContext (never exits by panic, panic handler exactly once with the right arguments, Sequential mutex released on the panic path) and the dispatch loop of PublishContext, for every handler list and position.", "4 C05"),
- "C06": ("WaitGroup credit discipline (Add precedes go, exactly one Done per credit on every path), Wait/Shutdown contracts with a one-shot channel invariant; all workloads through M4.", "4 C06"),
- "C08": ("Hook-count, hook-order, context-threading and cancellation contracts of PublishContext/Publish/callHandlerWithContext for every handler list, hook combination and cancellation point (monotone context oracle).", "4 C08"),
- "C13": ("Failure-containment contracts of persistEvent (no panic, error handler exactly once with event/type/non-nil error, no retry, lastOffset only on success, timeout context descends and is cancelled).", "4 C13"),
+ "C01": ("Registry contracts: every registry operation (Subscribe, SubscribeContext, Unsubscribe, Clear, ClearAll, HasHandlers, HandlerCount, the Once-removal section of PublishContext) is one critical section on the shard selected by shardIdx(typeOf(T)) whose effect on the abstract registry (map type -> sequence of registrations) is stated as a whole-view postcondition with frame; the shard lock invariant keeps every list typed by its key; PublishContext snapshots the list into a fresh array under the read lock and its dispatch loop delivers each snapshot element at most once, in index order, with the published value. Proved for every registry state, handler list and iteration count. Partial: 'first match is removed and order of the rest is kept' for Unsubscribe is a quantified postcondition; order preservation of the Once-removal loop is covered only by length/frame/typed invariants (stated in DESIGN.md).", "5 C01"),
+ "C02": ("Linearizability argument by contracts: each registry operation takes the shard lock exactly once (cs.single), its critical-section contract is its sequential specification, the handler record is immutable after publication (immutability scan) and delivery is at most once per snapshot element; with M1-M3 (lock-protected sections are atomic, lock invariants) this gives the stated bounds for every interleaving. The composition step itself (M7) is a trusted meta-theorem, not a discharged obligation.", "5 C02"),
+ "C04": ("Once claim/dispatch contracts of PublishContext (per-iteration), its goroutine literal, the atomic-field scan (executed only ever CAS 0->1) and the immutability scan, discharged for all inputs and iteration counts; all schedules through M5 (CAS linearizable).", "5 C04"),
+ "C05": ("Panic containment contracts of callHandlerWithContext (never exits by panic, panic handler exactly once with the right arguments, Sequential mutex released on the panic path) and the dispatch loop of PublishContext, for every handler list and position.", "5 C05"),
+ "C06": ("WaitGroup credit discipline (Add precedes go, exactly one Done per credit on every path), Wait/Shutdown contracts with a one-shot channel invariant; all workloads through M4.", "5 C06"),
+ "C07": ("Mutual exclusion half only: the handler call of a Sequential registration happens with that registration's mutex held (at-call assertion in callHandlerWithContext, lockset bookkeeping, sequential flag immutable), so invocations cannot overlap (M1). The FIFO-order half for Async+Sequential is a scheduling property no contract in reach expresses; it is not decided (DESIGN.md).", "5 C07"),
+ "C08": ("Hook-count, hook-order, context-threading and cancellation contracts of PublishContext/Publish/callHandlerWithContext for every handler list, hook combination and cancellation point (monotone context oracle).", "5 C08"),
+ "C09": ("Option-order independence (every With* option literal and New preserve PersistInv: the context-aware before hook persists), exactly one Append per publish with type name evName(dynType(event)) and data json(event) before any delivery, Append under storeMu; MemoryStore.Append assigns strictly increasing offsets (pad20 lemmas). The decode-yields-published-value clause rests on the assumed json round-trip contract.", "5 C09"),
+ "C10": ("Memory store: Append/Read/ReadStream/SaveOffset/LoadOffset against an abstract append-only log (ghost log, posOf, resumable) with the 20-digit padding order lemmas discharged as SMT lemma files. SQLite: parseOffset/formatOffset inverse, scanEvents/streamRows/streamBatch row-to-event contracts over an assumed database/sql Rows contract. Not covered: SQL statement semantics, durable-streams store (HTTP), timestamp text format (listed as unverified in DESIGN.md).", "5 C10"),
+ "C11": ("Replay's paged and streaming loops against the abstract log: nil only after the whole suffix was delivered, otherwise a non-nil error after a gap-free prefix, callback exactly once per event in order, no Append and no handler call (frame); iterator protocol contracts for MemoryStore.ReadStream and SQLite streamRows/streamBatch incl. rows.Err().", "5 C11"),
+ "C12": ("SubscribeWithReplay contracts: resume from the loaded offset, load errors returned, catch-up callback saves after the handler and only for matching decodable events, live wrapper saves bus.lastOffset read under storeMu after the handler, never OffsetOldest. One genuine defect is recorded as a known finding (events appended during a streaming catch-up are skipped).", "5 C12"),
+ "C13": ("Failure-containment contracts of persistEvent (no panic, error handler exactly once with event/type/non-nil error, no retry, lastOffset only on success, timeout context descends and is cancelled).", "5 C13"),
+ "C15": ("EventType/eventTypeNameOf functional contracts (TypeNamer wins, otherwise reflect name), and at-call assertions that persistEvent, SubscribeWithReplay and RegisterUpcast pass exactly evName(typeOf(T)); state messages' EventTypeName constants.", "5 C15"),
+ "C17": ("upcastRegistry.apply against the recursive chain specification (chainD/chainT/chainOK with first-registered upcaster), failure returns the original, ReplayWithUpcast callback passes composed data/type with offset and timestamp unchanged and calls the error handler once, typed upcaster closure = json(f(unjson(data))) with a fresh decode target.", "5 C17"),
+ "C18": ("Materializer fold: Apply/applyChange/applyControl/typedCollectionApplier contracts over the Store[T] map laws (Set/Delete/Clear/Get as map update with frame), CompositeKey injectivity lemma, lastOffset updated exactly on success; the two-session clause follows from the per-event step contract by M7.", "5 C18"),
+ "C19": ("Rejection half: Apply never panics on arbitrary bytes (no-panic obligations of the whole Apply call tree), and an event that cannot be applied returns an error with collections and lastOffset unchanged (frame postconditions). The round-trip half through the helper constructors rests on the assumed json contract and is only partly covered (EntityType/CompositeKey).", "5 C19"),
+ "C20": ("Core half: publish/handler/persist observability callbacks come in matched pairs, in order, with the context returned by the start passed to the complete and to the nested work, error exactly on panic/failure (contracts of PublishContext, callHandlerWithContext, persistEvent). The OpenTelemetry implementation (otel module) is not under contract.", "5 C20"),
 }
 
 NA = {
+ "C03": "not claimed yet: the lock-order/lockset obligations are generated for every function under contract, but the closed-world scan (every function that touches a mutex or guarded field is under contract) does not pass until the remaining lock users (state.MemoryStore.All, sqlite/durablestream stores, otel) have contracts; two genuine lock-order defects are already recorded as known findings (DESIGN.md)",
  "C14": "durability across SIGKILL/reopen is decided by the SQLite engine, WAL, VFS and the kernel; no pre/postcondition on ebu's Go functions expresses or decides it (DESIGN.md section 4, C14)",
+ "C16": "not claimed yet: rejection causes, register critical section and apply's bounded loop are under contract, but the DFS (hasCycleDFS) still lacks its reachability invariant, so its obligations are not discharged",
 }
 
 PENDING = "contracts for this property are still being written; not claimed yet (work in progress, see DESIGN.md)"
